@@ -21,6 +21,10 @@ def instances(tier):
                       desc={"what": "bits_image_fetch_pixel_convolution with a delta kernel (symbolic tap): output == texel rounding.txt puts under that tap; position and pixels symbolic"}))
         L.append(Inst("separable-3x2-bits21-" + rp, "C08/conv.c", {"SEP": 1, "CW": 3, "CH": 2, "XB": 2, "YB": 1, "REPEAT": "PIXMAN_REPEAT_" + rp}, link=[], unwind=20, objbits=12, timeout=2400,
                       desc={"what": "bits_image_fetch_pixel_separable_convolution with one symbolic tap per phase: phase row selection and alignment at the phase centre per rounding.txt"}))
+    for rp in (("PAD",) if tier == "quick" else REPEATS):
+        L.append(Inst("separable-fastpath-3x2-bits21-" + rp, "C08/sepfast.c", {"CW": 3, "CH": 2, "XB": 2, "YB": 1, "RNAME": rp.lower(), "REPEAT": "PIXMAN_REPEAT_" + rp, "RANGE": 2 if tier == "quick" else 6},
+                      link=["pixman-matrix.c"], unwind=20, objbits=12, timeout=2400,
+                      desc={"what": "the specialised fetcher bits_image_fetch_separable_convolution_affine_<repeat>_a8r8g8b8 of pixman-fast-path.c, same delta-kernel reference; translation (+-2 px at quick, +-6 px at thorough tier, full sub-pixel resolution) and pixels symbolic"}))
     if tier == "thorough":
         L.append(Inst("convolution-4x3-NONE", "C08/conv.c", {"SEP": 0, "CW": 4, "CH": 3, "REPEAT": "PIXMAN_REPEAT_NONE"}, link=[], unwind=20, objbits=12, timeout=2400,
                       desc={"what": "even/odd kernel sizes"}))
@@ -41,8 +45,8 @@ TEXT = ("Bounded model checking of the real samplers against the rounding.txt re
         "destination pixel equals the reference texel at the exactly (128-bit) computed position of its centre, whichever fetcher is selected; "
         "convolution and separable-convolution samplers with delta kernels (symbolic tap per phase) weigh exactly the texel rounding.txt places under each tap.")
 NOTE = ("Transforms at API level are concrete (menu of 7); bilinear weights concrete per instance (symbolic weights x symbolic pixels: no verdict "
-        "in 600 s); general (non-delta) kernel weights, the specialised separable-convolution affine fetcher of pixman-fast-path.c and SIMD fetchers are not covered.")
+        "in 600 s); general (non-delta) kernel weights and SIMD fetchers are not covered; the specialised separable-convolution affine fetcher of pixman-fast-path.c is covered for a8r8g8b8 with a symbolic translation (one repeat mode at quick tier, four at thorough).")
 RULE = "C08 instance = sampler x repeat mode x (source size | phase) | API transform x repeat."
 BOUNDS = {"position": "+-8 pixels, all 16 fractional bits (nearest)", "source": "<= 3x2", "api": "3x2 destination"}
-OUTSIDE = ["convolution with general kernel weights; bits_image_fetch_separable_convolution_affine (fast-path.c)", "symbolic transforms", "bilinear through the API", "SSE2/SSSE3 fetchers"]
+OUTSIDE = ["convolution with general kernel weights; the specialised separable fetcher for x8r8g8b8/a8/r5g6b5 and with non-translation transforms", "symbolic transforms", "bilinear through the API", "SSE2/SSSE3 fetchers"]
 ASSUMPTIONS = ["texel reader replaced by a harness function over a symbolic pixel array in the unit instances"]
